@@ -46,11 +46,30 @@ def subst_names(text, objs):
     return re.sub(r'\{(\w+):(\w+)\}', rep, text)
 
 
-def build(prog, after_step=None):
+_ID_BASES = (0, 7, 96, 994)
+
+
+def id_base_of(prog):
+    """The value the library's object counter (EconomicObject.ID) starts from for this program: a function of the
+    program's own steps, so that a replay in a fresh process rebuilds the same placeholder names (`_<id>__`), and so
+    that ids with 1, 2, 3 and 4 digits all occur whatever was built earlier in the process."""
+    import zlib
+    return _ID_BASES[zlib.crc32(json.dumps(prog['steps'], sort_keys=True, default=str).encode()) % len(_ID_BASES)]
+
+
+def build(prog, after_step=None, fixed_ids=True):
     """Execute the steps of a program.  Returns (model, objects-by-id).  `after_step(i)` is called
-    after step i (used to interleave the construction of several models)."""
+    after step i (used to interleave the construction of several models).  With `fixed_ids` the object counter
+    starts from id_base_of(prog) (not when the construction is interleaved with another one)."""
     from sfc_models.models import Model, Country, Region
     from sfc_models.external import ExternalSector
+    if fixed_ids and after_step is None:
+        try:
+            from sfc_models.models import EconomicObject
+            if isinstance(getattr(EconomicObject, 'ID', None), int):
+                EconomicObject.ID = id_base_of(prog)
+        except ImportError:
+            pass
     mod = Model()
     mod.MaxTime = prog.get('maxtime', 5)
     objs = {'model': mod}
@@ -488,7 +507,7 @@ class ProgGen(object):
             hkw2['alpha_income'] = _fmt(rng.uniform(0.5, 0.9), self.decimals)
             hh2 = add('HH2', 'Household', nm['HH2'], **hkw2)
         # business
-        margin = rng.choice([0.0, 0.0, _fmt(rng.uniform(0.05, 0.3), 3)])
+        margin = rng.choice([0.0, _fmt(rng.uniform(0.05, 0.3), 3), _fmt(rng.uniform(0.05, 0.3), 3)])
         multi = rng.random() < 0.3
         goods_first = multi
         bkw = {'profit_margin': margin}
@@ -507,7 +526,7 @@ class ProgGen(object):
         # optional second firm selling a second good (services) that the government buys
         two_bus = with_gov and (not multi) and rng.random() < 0.3
         if two_bus:
-            margin2 = rng.choice([0.0, _fmt(rng.uniform(0.05, 0.3), 3), _fmt(rng.uniform(0.05, 0.3), 3)])
+            margin2 = rng.choice([0.0] + [_fmt(rng.uniform(0.05, 0.3), 3) for _ in range(4)])
             b2kw = {'profit_margin': margin2, 'output_name': 'SERV'}
             if nm['LAB'] != 'LAB':
                 b2kw['labour_input_name'] = nm['LAB']
